@@ -81,6 +81,7 @@ struct Kernel {
 	// fault knobs
 	std::deque<int> timerfd_create_errs;   // errno per upcoming call (0 = ok)
 	std::deque<int> epoll_add_errs;
+	int close_eintr = 0;            // fault: the next n close() calls on connections/timers report EINTR (after releasing the descriptor)
 	KFd *get(int fd) { int i = fd - fd_base; if (i < 0 || i >= (int)fds.size()) return nullptr; return &fds[i]; }
 	KFd &alloc_fd(FdKind kind);
 	void mark_pending(KFd &k);
